@@ -141,7 +141,13 @@ structure Parsed where
   normalized : Str
 deriving Repr, DecidableEq
 
-def natToStr (n : Nat) : Str := (toString n).toList
+def digitChar (d : Nat) : Char := Char.ofNat (48 + d)
+
+/-- decimal digits, most significant first (= Python's `str(int)`) -/
+def natToStr (n : Nat) : Str :=
+  if h : n < 10 then [digitChar n] else natToStr (n / 10) ++ [digitChar (n % 10)]
+termination_by n
+decreasing_by omega
 
 def unsplit (scheme netloc path query fragment : Str) : Str :=
   let url := if !netloc.isEmpty then
